@@ -1,5 +1,5 @@
 """C07 - Hamming mode returns exactly the equal-length pairs within max_edits mismatches."""
-from ._nn import check_buckets, check_hamming_replacement, run_fga
+from ._nn import check_candidates, check_engines_stateless, check_buckets, check_hamming_replacement, run_fga
 
 CLAIMED = True
 LEVEL = "other"
@@ -19,6 +19,8 @@ def run(r):
     rep.trust("rapidfuzz.distance.Hamming.distance counts mismatching positions of equal-length strings", "numpy: a[L] for a list of positions L has a[L][k] == a[L[k]]",
               "DESIGN Appendix A.4 (substitution ball) and A.5 (lemma table)")
     check_hamming_replacement(r, "C07-HR")
+    check_candidates(r, "C07", cds=("hamming",))
+    check_engines_stateless(r, "C07-STATE", cds=("hamming",))
     check_buckets(r, "C07")
     run_fga(r, "C07", {"hamming"}, floor=10)
     rep.floor("C07-HR", 1)
